@@ -1,5 +1,6 @@
 import FitProps.C12Lemmas
 import FitModel.TimeAngle
+import FitModel.ScaleOffsetProfile
 import FitModel.Generated.ProfileArith
 /-!
 # C12 — Scaled (physical) and raw representations convert back and forth losslessly
@@ -243,5 +244,110 @@ scale 5 / offset 500 as 1; the sentinel of a uint16 accessor is 0xFFFF -/
 theorem C12_typed_witness_fixed :
     typedRT .u32 0xFFFFFFFF 29 0x4059000000000000 0 = 29 ∧
     typedRT .u16 0xFFFF 1 0x4014000000000000 0x407f400000000000 = 1 ∧ maxPat .u16 = 0xFFFF := by decide +kernel
+
+/-! ### every generated accessor: the regenerated table -/
+
+/-- **C12_typed_table.** Every row of the regenerated table of generated `XxxScaled` / `SetXxxScaled` pairs
+(`Generated/ProfileArith.lean`, printed on every run by reflection over the compiled mesgdef structs: Go kind of the
+element, invalid sentinel, and the scale / offset of the factory field the struct field maps to) meets the hypotheses
+of `C12_typed`: the element type is an integer type of at most 32 bits, the sentinel is the largest value of that
+type, and the (scale, offset) pair is a pair of the profile. Kernel-evaluated over the whole table. -/
+theorem C12_typed_table : ∀ t ∈ Fit.Gen.PA.typed,
+    (intTyOfCode t.ty).bits ≤ 32 ∧ t.invalid = maxPat (intTyOfCode t.ty) ∧ (t.scale, t.offset) ∈ profilePairs := by
+  decide +kernel
+
+/-- **C12_typed_all.** For EVERY generated accessor pair of profile/mesgdef (scalar accessors, and the element rule of
+the slice / fixed-array ones): every raw value of the element type other than the sentinel comes back. -/
+theorem C12_typed_all (t : Fit.PA.Typed) (ht : t ∈ Fit.Gen.PA.typed) (r : Nat) (hr : r < 2 ^ (intTyOfCode t.ty).bits)
+    (hne : r ≠ t.invalid) : typedRT (intTyOfCode t.ty) t.invalid r t.scale t.offset = r := by
+  obtain ⟨hb, hi, hp⟩ := C12_typed_table t ht
+  rw [hi] at hne ⊢
+  exact C12_typed (intTyOfCode t.ty) hb r hr hne (t.scale, t.offset) hp
+
+/-- non-vacuity: the table is not empty, it has scalar, slice and fixed-array rows, and `Record.Altitude` is one of them -/
+example : Fit.Gen.PA.typed.length = 381 ∧ (Fit.Gen.PA.typed.filter (·.arr == 1)).length = 66 ∧
+    (Fit.Gen.PA.typed.filter (·.arr > 1)).map (·.arr) = [4, 10] ∧
+    (lookupTyped "Record" "Altitude").map (fun t => (t.ty, t.invalid)) = some (3, 0xFFFF) := by decide +kernel
+
+/-! ### slice and fixed-array accessors -/
+
+/-- an element of a slice / array accessor: the sentinel included (it maps to the float64 invalid pattern and back) -/
+theorem typedRT_elem (ty : IntTy) (hty : ty.bits ≤ 32) (r : Nat) (hr : r < 2 ^ ty.bits)
+    (pr : Nat × Nat) (hpr : pr ∈ profilePairs) : typedRT ty (maxPat ty) r pr.1 pr.2 = r := by
+  by_cases h : r = maxPat ty
+  · rw [h]; exact C12_typed_invalid ty pr.1 pr.2
+  · exact C12_typed ty hty r hr h pr hpr
+
+theorem map_typedRT (ty : IntTy) (hty : ty.bits ≤ 32) (xs : List Nat) (hxs : ∀ x ∈ xs, x < 2 ^ ty.bits)
+    (pr : Nat × Nat) (hpr : pr ∈ profilePairs) :
+    (xs.map fun x => getScaled ty (maxPat ty) x pr.1 pr.2).map (fun v => setScaled ty (maxPat ty) v pr.1 pr.2) = xs := by
+  induction xs with
+  | nil => rfl
+  | cons x xs ih =>
+    have h1 := typedRT_elem ty hty x (hxs x (by simp)) pr hpr
+    simp only [typedRT] at h1
+    simp only [List.map_cons, h1, ih (fun y hy => hxs y (by simp [hy]))]
+
+/-- the fixed-array setter ("fill with the sentinel, skip the elements that cannot be stored") is the scalar setter
+applied to every element -/
+theorem setScaledArray_eq_map (ty : IntTy) (inv : Nat) (vs : List Nat) (s o : Nat) :
+    setScaledArray ty inv vs s o = vs.map fun v => setScaled ty inv v s o := by
+  unfold setScaledArray
+  induction vs with
+  | nil => rfl
+  | cons v vs ih =>
+    simp only [List.length_cons, List.replicate_succ, List.zipWith_cons_cons, List.map_cons, ih]
+    rfl
+
+/-- **C12_typed_slice.** The generated accessors of a slice field `[]T` (`T` an integer type of at most 32 bits):
+`SetXxxScaled(XxxScaled())` gives back the slice — nil stays nil (`none`), an empty slice stays empty, and EVERY
+element comes back, the invalid sentinel included (element-wise: it maps to the float64 invalid pattern and back),
+negative elements of signed types included — for every pair of the profile. -/
+theorem C12_typed_slice (ty : IntTy) (hty : ty.bits ≤ 32) (xs : Option (List Nat))
+    (hxs : ∀ l, xs = some l → ∀ x ∈ l, x < 2 ^ ty.bits) (pr : Nat × Nat) (hpr : pr ∈ profilePairs) :
+    setScaledSlice ty (maxPat ty) (getScaledSlice ty (maxPat ty) xs pr.1 pr.2) pr.1 pr.2 = xs := by
+  cases xs with
+  | none => rfl
+  | some l =>
+    simp only [getScaledSlice, setScaledSlice]
+    rw [map_typedRT ty hty l (hxs l rfl) pr hpr]
+
+/-- **C12_typed_array.** The generated accessors of a fixed-array field `[N]T`: the same identity for every array
+of any length `N`, whether it is the all-sentinel array (answered by the getter's whole-array test) or not. -/
+theorem C12_typed_array (ty : IntTy) (hty : ty.bits ≤ 32) (xs : List Nat)
+    (hxs : ∀ x ∈ xs, x < 2 ^ ty.bits) (pr : Nat × Nat) (hpr : pr ∈ profilePairs) :
+    setScaledArray ty (maxPat ty) (getScaledArray ty (maxPat ty) xs pr.1 pr.2) pr.1 pr.2 = xs := by
+  have hinv : setScaled ty (maxPat ty) Fit.Gen.float64Invalid pr.1 pr.2 = maxPat ty := by
+    have := C12_typed_invalid ty pr.1 pr.2
+    simpa [typedRT, getScaled] using this
+  rw [setScaledArray_eq_map]
+  unfold getScaledArray
+  split
+  · next h => rw [List.map_replicate, hinv]; exact h.symm
+  · exact map_typedRT ty hty xs hxs pr hpr
+
+/-- non-vacuity of the two theorems: a nil slice, a slice holding a negative element, the sentinel and the largest
+valid value at scale 100 (AviationAttitude.AccelLateral); the all-sentinel and a mixed [3]int16 (GpsMetadata.Velocity) -/
+example :
+    getScaledSlice .i16 0x7FFF none 0x4059000000000000 0 = none ∧
+    setScaledSlice .i16 0x7FFF (getScaledSlice .i16 0x7FFF (some [0xFF6A, 0x7FFF, 0x7FFE]) 0x4059000000000000 0)
+      0x4059000000000000 0 = some [0xFF6A, 0x7FFF, 0x7FFE] ∧
+    getScaledArray .i16 0x7FFF [0x7FFF, 0x7FFF, 0x7FFF] 0x4059000000000000 0 = List.replicate 3 Fit.Gen.float64Invalid ∧
+    setScaledArray .i16 0x7FFF (getScaledArray .i16 0x7FFF [0x8000, 0x7FFF, 29] 0x4059000000000000 0)
+      0x4059000000000000 0 = [0x8000, 0x7FFF, 29] := by decide +kernel
+
+/-- **C12_typed_slice_all.** For EVERY generated slice accessor (rows with `arr = 1` of the regenerated table) and
+every generated fixed-array accessor (rows with `arr = N + 1`): the round trip of the whole field is the identity. -/
+theorem C12_typed_slice_all (t : Fit.PA.Typed) (ht : t ∈ Fit.Gen.PA.typed) :
+    (∀ xs : Option (List Nat), (∀ l, xs = some l → ∀ x ∈ l, x < 2 ^ (intTyOfCode t.ty).bits) →
+      setScaledSlice (intTyOfCode t.ty) t.invalid (getScaledSlice (intTyOfCode t.ty) t.invalid xs t.scale t.offset)
+        t.scale t.offset = xs) ∧
+    (∀ xs : List Nat, (∀ x ∈ xs, x < 2 ^ (intTyOfCode t.ty).bits) →
+      setScaledArray (intTyOfCode t.ty) t.invalid (getScaledArray (intTyOfCode t.ty) t.invalid xs t.scale t.offset)
+        t.scale t.offset = xs) := by
+  obtain ⟨hb, hi, hp⟩ := C12_typed_table t ht
+  rw [hi]
+  exact ⟨fun xs hxs => C12_typed_slice _ hb xs hxs (t.scale, t.offset) hp,
+    fun xs hxs => C12_typed_array _ hb xs hxs (t.scale, t.offset) hp⟩
 
 end Fit.C12
